@@ -52,6 +52,10 @@ Next ==
                               /\ e.res # "panic" => /\ Report("C13:wellformed_accepted", e.res = "ok")
                                                     /\ e.res = "ok" => /\ Report("C13:arguments_in_declaration_order", e.args_ok /\ e.ids_ok)
                                                                        /\ Report("C13:exact_attacks", e.atts_ok)
+       [] e.ev = "bigrt" -> /\ Report("C14:framework_reads_back", e.res = "ok")
+                            /\ e.res = "ok" => /\ Report("C14:same_labels_same_order", e.args_ok)
+                                                /\ Report("C14:same_attacks", e.atts_ok /\ e.nodup)
+                                                /\ Report("C14:one_declaration_per_line", e.lines_ok)
        [] e.ev = "resp" -> JudgeResp(e)
        [] e.ev = "status" -> JudgeStatus(e)
        [] e.ev = "noext" -> JudgeNoExt(e)
